@@ -82,7 +82,9 @@ def _parse_section(full, sec):
     r = {'full_name': full, 'status': 'unknown', 'failed_checks': [], 'checks': 0, 'cover_sat': 0,
          'cover_total': 0, 'time_s': None}
     m2 = re.search(r'VERIFICATION:- (SUCCESSFUL|FAILED)', sec)
-    if m2:
+    if re.search(r'CBMC timed out', sec):
+        r['status'] = 'timeout'      # Kani prints VERIFICATION:- FAILED for a harness timeout too
+    elif m2:
         r['status'] = 'success' if m2.group(1) == 'SUCCESSFUL' else 'failed'
     elif re.search(r'timed out|Timeout', sec):
         r['status'] = 'timeout'
